@@ -121,3 +121,220 @@ theorem ft_smulE (pi : Rat) (q : CQ) : ∀ x : E, ft pi (smulE q x) = smulE q (f
       rw [ftTerm_smul pi q t, ih]
 
 end Lcapy.Fourier
+
+namespace Lcapy.Fourier
+
+theorem generalised_aux (pi : Rat) (hpi : pi ≠ 0) :
+    (⟨0, -1 / pi⟩ : CQ) * ⟨0, -pi⟩ = CQ.ofRat (-1) ∧
+    CQ.ofRat (-1 / (2 * pi * pi)) * CQ.ofRat (-2 * pi * pi) = 1 ∧
+    (⟨0, -pi⟩ : CQ) * ⟨0, -1 / pi⟩ = CQ.ofRat (-1) ∧
+    CQ.ofRat (-2 * pi * pi) * CQ.ofRat (-1 / (2 * pi * pi)) = 1 := by
+  refine ⟨?_, ?_, ?_, ?_⟩ <;> ext <;> simp [CQ.mul_re, CQ.mul_im, CQ.ofRat] <;> try (field_simp)
+  all_goals rfl
+
+theorem delta_scaling_aux (kappa : Rat) (hk : kappa ≠ 0) (n : Nat) (t : Term) (ha : t.a ≠ 0) :
+    deltaLoc (scaleT kappa t) = deltaLoc t / kappa ∧
+    deltaWeight n (scaleT kappa t) = CQ.smul (1 / (rabs kappa * kappa ^ n)) (deltaWeight n t) := by
+  have hk' := rabs_ne_zero hk
+  have ha' := rabs_ne_zero ha
+  constructor
+  · simp only [deltaLoc, scaleT]; field_simp
+  · simp only [deltaWeight, scaleT, CQ.smul_smul, rabs_mul]
+    congr 1
+    field_simp
+    ring
+
+theorem f_omega_aux (pi dt : Rat) (c : GConv) (h : convOk c = true) (hr : c.returnsSelf = false) :
+    (c.src = .f → c.dst = some .omega → Model.convFactor pi dt c = 1 / 2 * (1 / pi)) ∧
+    (c.src = .omega → c.dst = some .f → Model.convFactor pi dt c = 2 * pi) ∧
+    (c.src = .omega → c.dst = none → Model.convFactor pi dt c = 2 * pi) := by
+  obtain ⟨src, dst, e2, epi, edt, rs⟩ := c
+  simp only at hr
+  subst hr
+  refine ⟨?_, ?_, ?_⟩
+  all_goals
+    intro h1 h2
+    simp only at h1 h2
+    subst h1
+    subst h2
+    simp [convOk, Dom.expo] at h
+    obtain ⟨⟨rfl, rfl⟩, rfl⟩ := h
+    simp [Model.convFactor, monomial, zpow]
+
+end Lcapy.Fourier
+
+namespace Lcapy.Fourier
+
+theorem CQ.add_comm' (x y : CQ) : x + y = y + x := by
+  ext <;> show _ + _ = _ + _ <;> ring
+
+theorem rabs_one : rabs 1 = 1 := by decide
+
+theorem fourier_laplace_aux (pi f : Rat) : ∀ x : List EPTerm,
+    ratValue pi f (ft pi (x.map EPTerm.toTerm)) = laplaceAt ⟨0, 2 * pi * f⟩ x
+  | [] => rfl
+  | p :: x => by
+      have ih := fourier_laplace_aux pi f x
+      simp only [ratValue, ft, laplaceAt, List.map_cons, List.flatMap_cons, List.map_append, List.foldr_cons,
+        List.foldr_append] at ih ⊢
+      rw [← ih]
+      simp only [ftTerm, ftKind, EPTerm.toTerm, List.map_cons, List.map_nil, List.foldr_cons, List.foldr_nil,
+        Term.ratValue, rabs_one]
+      congr 1
+      have h1 : (1 : Rat) * f + 0 = f := by ring
+      have h2 : (1 : Rat) / 1 / 1 = 1 := by norm_num
+      rw [CQ.add_comm' p.al]
+      simp only [div_one, one_mul]
+      congr 1
+      · ext <;> simp [CQ.smul, CQ.mul_re, CQ.mul_im, CQ.ofRat]
+      · simp
+
+end Lcapy.Fourier
+
+namespace Lcapy.Fourier
+
+theorem canon_inverse_sound (pi : Rat) (g : GTerm) (h : g.canon true = g.canonReflected false) :
+    canonT (g.toTerm pi true) = canonT (reflectT (g.toTerm pi false)) := by
+  obtain ⟨reN, imN, den, piPow, k, useSf, scN, scD, scPi⟩ := g
+  cases useSf
+  · -- raw `f`
+    simp only [GTerm.canon, GTerm.canonReflected, Bool.false_and, Bool.not_false] at h
+    cases hp : k.parity with
+    | none => simp [hp] at h
+    | some par =>
+      cases par
+      · -- odd atom: the coefficient must vanish
+        simp only [hp, Prod.mk.injEq, and_true, GTerm.mk.injEq, true_and] at h
+        have hre : reN = 0 := by have := h.1; simp at this; omega
+        have him : imN = 0 := by have := h.2; simp at this; omega
+        subst hre; subst him
+        simp [canonT, GTerm.toTerm, reflectT, hp, GTerm.coef, CQ.smul, rabs_neg]
+      · simp [canonT, GTerm.toTerm, reflectT, hp, rabs_neg]
+  · simp [GTerm.toTerm, reflectT]
+
+end Lcapy.Fourier
+
+namespace Lcapy.Fourier
+
+theorem model_forward_refines_aux (pi : Rat) (t : Term) (e : GEntry) (ha : t.a ≠ 0)
+    (hk : ∀ al, t.k ≠ .cpole 1 al) (hk' : ∀ al, t.k ≠ .expu 0 al) (h1 : t.k ≠ .one) (h2 : t.k ≠ .ramp) (h3 : t.k ≠ .inv1)
+    (h4 : t.k ≠ .inv2) (hl : Model.lookup t.k 0 = some e)
+    (hpair : entryE pi false e.terms = (ftKind pi t.k).map fun p => ⟨p.q, 0, 0, p.k, p.s, 0⟩) :
+    Model.modelTerm pi false 0 t = some (ftTerm pi t) := by
+  obtain ⟨c, ph, th, k, a, b⟩ := t
+  simp only at ha hk hk' h1 h2 h3 h4 hl hpair
+  have hgen : Model.otherTerm pi false 0 k a b = (Model.lookup k 0).map fun e =>
+      smulE (CQ.ofRat (1 / rabs a)) (modE ((if false then -1 else 1 : Rat) * b / a) (scaleE (1 / a) (entryE pi false e.terms))) := by
+    cases k with
+    | one => exact absurd rfl h1
+    | ramp => exact absurd rfl h2
+    | inv1 => exact absurd rfl h3
+    | inv2 => exact absurd rfl h4
+    | expu n al =>
+      cases n with
+      | zero => exact absurd rfl (hk' al)
+      | succ m => rfl
+    | cpole n al =>
+      cases n with
+      | zero => rfl
+      | succ m =>
+        cases m with
+        | zero => exact absurd rfl (hk al)
+        | succ _ => rfl
+    | _ => rfl
+  have har := rabs_ne_zero ha
+  simp only [Model.modelTerm, hgen, hl, hpair, Option.map_some, Option.some.injEq, shiftE, smulE, modE, scaleE, List.map_map,
+    ftTerm]
+  apply List.map_congr_left
+  intro p _
+  apply Term.ext' <;> simp only [Function.comp, shiftT, smulT, modT, scaleT]
+  · ext <;> simp [CQ.smul, CQ.mul_re, CQ.mul_im, CQ.ofRat] <;> ring
+  all_goals (simp; try (field_simp); try ring)
+
+end Lcapy.Fourier
+
+namespace Lcapy.Fourier
+
+theorem ft_ft_term_aux (pi : Rat) (t : Term) (ha : t.a ≠ 0) (hs : ∀ p ∈ ftKind pi t.k, p.s = 1 ∨ p.s = -1) :
+    ft pi (ftTerm pi t) =
+      (ftKind pi t.k).flatMap fun p => (ftKind pi p.k).map fun r =>
+        ⟨CQ.smul (1 / rabs (p.s / t.a)) (CQ.smul (1 / rabs t.a) (t.c * p.q) * r.q), t.ph, -t.th, r.k, r.s / p.s * t.a,
+          -(r.s / p.s * t.b)⟩ := by
+  obtain ⟨c, ph, th, k, a, b⟩ := t
+  simp only at ha hs ⊢
+  simp only [ft, ftTerm]
+  generalize ftKind pi k = l at hs
+  induction l with
+  | nil => rfl
+  | cons p l ih =>
+    have hp : p.s ≠ 0 := by
+      rcases hs p List.mem_cons_self with h | h <;> rw [h] <;> norm_num
+    simp only [List.map_cons, List.flatMap_cons]
+    rw [ih (fun q hq => hs q (List.mem_cons_of_mem _ hq))]
+    congr 1
+    apply List.map_congr_left
+    intro r _
+    apply Term.ext' <;> simp only
+    all_goals (field_simp; try ring)
+
+theorem fact_pos' (n : Nat) : (fact n : Rat) ≠ 0 := by
+  induction n with
+  | zero => simp [fact]
+  | succ m ih =>
+    simp only [fact]
+    push_cast
+    have : ((m : Rat) + 1) ≠ 0 := by positivity
+    exact mul_ne_zero this ih
+
+def ftftPairs (pi : Rat) (k : Kind) : List (CQ × Kind × Rat) :=
+  (ftKind pi k).flatMap fun p => (ftKind pi p.k).map fun r => (p.q * r.q, r.k, r.s / p.s)
+
+theorem CQ.one_re : (1 : CQ).re = 1 := rfl
+theorem CQ.one_im : (1 : CQ).im = 0 := rfl
+theorem CQ.one_mul' (x : CQ) : (1 : CQ) * x = x := by
+  ext <;> simp [CQ.mul_re, CQ.mul_im, CQ.one_re, CQ.one_im]
+
+theorem pair_involutive_even (pi : Rat) (k : Kind) (hk : k = .rect ∨ k = .tri ∨ k = .sinc ∨ k = .sinc2 ∨ k = .gauss) :
+    ftftPairs pi k = [(1, k, 1)] ∧ k.parity = some true := by
+  rcases hk with rfl | rfl | rfl | rfl | rfl <;> refine ⟨?_, rfl⟩ <;>
+    simp [ftftPairs, ftKind, CQ.one_mul']
+
+theorem pair_involutive_exp (pi : Rat) (n : Nat) (al : CQ) :
+    ftftPairs pi (.expu n al) = [(1, .expu n al, -1)] ∧ ftftPairs pi (.cpole (n + 1) al) = [(1, .cpole (n + 1) al, -1)] := by
+  have h := fact_pos' n
+  constructor <;> simp [ftftPairs, ftKind] <;> (try norm_num) <;> ext <;>
+    simp [CQ.mul_re, CQ.mul_im, CQ.ofRat] <;> (try (field_simp)) <;> rfl
+
+end Lcapy.Fourier
+
+namespace Lcapy.Fourier
+
+theorem rsgn_mul_self_abs (a : Rat) : rsgn a * rabs a = a := by
+  unfold rsgn rabs; split_ifs <;> ring
+
+theorem rsgn_neg {a : Rat} (ha : a ≠ 0) : rsgn (-a) = -rsgn a := by
+  unfold rsgn
+  rcases lt_or_gt_of_ne ha with h | h
+  · have : ¬ (-a < 0) := by linarith
+    simp [h, this]
+  · have h' : ¬ (a < 0) := by linarith
+    have : -a < 0 := by linarith
+    simp [h', this]
+
+theorem inverse_forward_even (pi : Rat) (t : Term) (ha : t.a ≠ 0)
+    (hk : t.k = .rect ∨ t.k = .tri ∨ t.k = .sinc ∨ t.k = .sinc2 ∨ t.k = .gauss) :
+    (ift pi (ftTerm pi t)).map canonT = [canonT t] := by
+  obtain ⟨c, ph, th, k, a, b⟩ := t
+  simp only at ha hk
+  have har := rabs_ne_zero ha
+  have h1 : rabs a⁻¹ = (rabs a)⁻¹ := by simp [rabs_eq_abs, abs_inv]
+  rcases hk with rfl | rfl | rfl | rfl | rfl <;>
+    (simp only [ift, ft, ftTerm, ftKind, reflectE, List.map_cons, List.map_nil, List.flatMap_cons, List.flatMap_nil,
+        List.append_nil, reflectT, canonT, Kind.parity, List.cons.injEq, and_true]
+     apply Term.ext' <;> simp only
+     · ext <;> simp [CQ.smul, CQ.mul_re, CQ.mul_im, CQ.one_re, CQ.one_im] <;> rw [h1] <;> field_simp
+     all_goals (try (simp [rabs_neg, h1]; try field_simp))
+     all_goals (try rw [rsgn_neg ha])
+     all_goals (try ring))
+
+end Lcapy.Fourier
